@@ -2,7 +2,7 @@
 import vlib
 from props import p2common
 
-PREFIXES = ['c04_', 'c03_']
+PREFIXES = ['c04_', 'c03_', 'c10_resync_incomplete']  # convergence needs the complete re-push
 
 
 def run(ctx):
